@@ -221,7 +221,8 @@ def signatures():
 # between its statements there are SLOTS for stand-alone comment lines, and three lines can carry a
 # trailing comment.  Every assignment of the comment menu to the slots is a program.
 DIR_LINES = [
-    "def f(a):", "  return a",          # slot 0 before
+    "def f(a, b=0):", "  return a",     # slot 0 before
+    "x0 = f(0, 0, 0)",                  # single-line call (wrong-arg-count); trailing T3
     "x1 = f(", "    1)",                # slot 1 before; trailing T0 on first line, T1 on inner line
     "x2 = [].nope",                     # slot 2 before; trailing T2
     "x3 = f(2)",                        # slot 3 before
@@ -229,20 +230,22 @@ DIR_LINES = [
     "  def m(self):", "    return self.zz",   # slot 5 before (inside the class)
     "x4 = 1",                           # slot 6 before
 ]
-DIR_SLOT_AT = {0: 0, 1: 2, 2: 4, 3: 5, 4: 6, 5: 8, 6: 10}   # slot -> index in DIR_LINES it precedes
-DIR_TRAIL_AT = {0: 2, 1: 3, 2: 4}
+DIR_SLOT_AT = {0: 0, 1: 3, 2: 5, 3: 6, 4: 7, 5: 9, 6: 11}   # slot -> index in DIR_LINES it precedes
+DIR_TRAIL_AT = {0: 3, 1: 4, 2: 5, 3: 2}
 DIR_MENU = {"-": None, "dA": "# pytype: disable=attribute-error", "eA": "# pytype: enable=attribute-error",
             "dN": "# pytype: disable=name-error", "eN": "# pytype: enable=name-error", "ig": "# type: ignore",
-            "bad": "# pytype: disable=no-such-error-class"}
+            "dC": "# pytype: disable=wrong-arg-count", "bad": "# pytype: disable=no-such-error-class"}
 
 
 def directive_programs(tier):
   """Yields (id, source)."""
   if tier == "quick":
-    slots, menu, trails = (1, 2, 3, 4, 6), ("-", "dA", "eA"), (("-", "-", "-"), ("dA", "-", "-"), ("-", "dA", "-"), ("-", "-", "ig"))
+    slots, menu, trails = (1, 2, 3, 4, 6), ("-", "dA", "eA"), (
+        ("-", "-", "-", "-"), ("dA", "-", "-", "-"), ("-", "dA", "-", "-"), ("-", "-", "ig", "-"), ("-", "-", "-", "dC"))
   else:
     slots, menu, trails = (1, 2, 3, 4, 5, 6), ("-", "dA", "eA", "dN"), (
-        ("-", "-", "-"), ("dA", "-", "-"), ("-", "dA", "-"), ("-", "-", "ig"), ("ig", "-", "dA"), ("-", "bad", "-"))
+        ("-", "-", "-", "-"), ("dA", "-", "-", "-"), ("-", "dA", "-", "-"), ("-", "-", "ig", "-"), ("ig", "-", "dA", "-"),
+        ("-", "bad", "-", "-"), ("-", "-", "-", "dC"), ("-", "-", "-", "ig"))
   for combo in itertools.product(menu, repeat=len(slots)):
     for tr in trails:
       lines = list(DIR_LINES)
